@@ -10,7 +10,7 @@ RULE = ("programs generated from the full header/body model (lets of any sign/ma
 ASSUMPTIONS = ["reference meaning (vf/meaning.py) reads IR objects through public attributes only",
                "autoload_pulses=False: pulse imports are kept as statements, not loaded"]
 TIERS = {"quick": {"shards": 8, "budget_s": 60}, "thorough": {"shards": 16, "budget_s": 300}}
-REQUIRE = {"route:builder": 500, "route:text": 50, "route:build": 50, "route:build-lists": 50, "lit:float-exp": 5, "node:subcircuit_block": 20, "map:6": 20, "node:macro": 20}
+REQUIRE = {"derived-circuits-judged": 300, "route:builder": 500, "route:text": 50, "route:build": 50, "route:build-lists": 50, "lit:float-exp": 5, "node:subcircuit_block": 20, "map:6": 20, "node:macro": 20}
 
 
 def build_circuit(prog, route, bseed=0):
@@ -19,9 +19,69 @@ def build_circuit(prog, route, bseed=0):
     if route == "builder":
         # the object-oriented CircuitBuilder API used the documented way (objects built at once or unevaluated, numpy numbers)
         return builder_route.via_builder(prog, bseed)[0]
+    if route == "derived":
+        return build_derived(prog, bseed)[0]
     if route == "build-lists":
         return lib.build(_lists(prog))
     return lib.build(prog)
+
+
+def derive_program(prog, rseed):
+    """The model of the derived circuit: every macro also exists as a renamed copy right after the original, and
+    top-level calls go to the copy or to the original."""
+    import random
+
+    rng = random.Random(rseed)
+    taken = {s[1] for s in sx.walk(prog) if s[0] in ("gate", "macro", "let", "register", "map")}
+    names = {}
+    for s in prog[1:]:
+        if s[0] == "macro":
+            n = s[1] + "_c"
+            while n in taken:
+                n += "c"
+            taken.add(n)
+            names[s[1]] = n
+    if not names:
+        return None, None
+    out = [prog[0]]
+    for s in prog[1:]:
+        if s[0] == "macro":
+            out.append(s)
+            out.append(("macro", names[s[1]]) + tuple(s[2:]))
+        elif s[0] == "gate" and s[1] in names and rng.random() < 0.6:
+            out.append(("gate", names[s[1]]) + tuple(s[2:]))
+        else:
+            out.append(s)
+    return tuple(out), names
+
+
+def build_derived(prog, rseed):
+    """A circuit put together from the parts of another circuit that has already been written out once: its header
+    objects and macros are reused as objects, each macro also as a renamed copy (AbstractGate.copy(name=...))."""
+    import random
+
+    model, names = derive_program(prog, rseed)
+    if model is None:
+        raise lib.JaqalError("no macro to derive from")
+    first = lib.parse(sx.to_text(prog))
+    lib.generate(first)
+    rng = random.Random(rseed + 1)
+    expr = ["circuit"]
+    for s in model[1:]:
+        k = s[0]
+        if k == "let" and rng.random() < 0.5:
+            expr.append(first.constants[s[1]])
+        elif k in ("register", "map") and rng.random() < 0.5 and not any(isinstance(x, str) for x in s[2:] if k == "register"):
+            expr.append(first.registers[s[1]])
+        elif k == "macro":
+            if s[1] in first.macros:
+                expr.append(first.macros[s[1]])
+            else:
+                orig = [o for o, n in names.items() if n == s[1]][0]
+                expr.append(first.macros[orig].copy(name=s[1]))
+        else:
+            expr.append(s)
+    return lib.build(expr), model
 
 
 def _lists(x):
@@ -39,6 +99,19 @@ def judge(case):
         return "skipped:input-rejected:%s" % o[1], []
     c = o[1]
     fails = []
+    if route == "derived":
+        # the derived circuit has to be the one its model describes before its round trip is judged (what copy() and
+        # build() do with re-used objects is not this property's business: a mismatch is not judged)
+        om = lib.outcome(lib.parse, sx.to_text(derive_program(prog, case.get("bseed", 0))[0]))
+        if om[0] != "ok":
+            return "skipped:derived-model-rejected", []
+        try:
+            mm_c = tuple(M.macro_meanings(M.core_from_ir(c)).items())
+            mm_m = tuple(M.macro_meanings(M.core_from_ir(om[1])).items())
+            if not M.tree_equal(mm_c, mm_m) or not (c == om[1]):
+                return "skipped:derived-circuit-differs-from-model", []
+        except M.OracleError as ex:
+            return "inconclusive:oracle:%s" % ex, fails
     o = lib.outcome(lib.generate, c)
     if o[0] != "ok":
         return "ok", [("generate-raised:" + o[1], {"error": o[2]})]
@@ -114,6 +187,8 @@ def process(ctx, case, seen):
             rec.count("skipped-total")
         return
     rec.count("judged")
+    if case.get("route") == "derived":
+        rec.count("derived-circuits-judged")
     for clause, detail in fails:
         key = (clause, tuple(sorted(prog_features(prog))))
         seen[key] = seen.get(key, 0) + 1
@@ -152,6 +227,9 @@ def shard(ctx):
         if any("e" in repr(a) for a in lits):
             rec.count("lit:float-exp")
         process(ctx, case, seen)
+        if i % 6 == 0 and any(x[0] == "macro" for x in prog[1:]):
+            # the same program once more: parsed, written out, and a second circuit derived from its parts
+            process(ctx, {"prog": prog, "route": "derived", "bseed": rng.randrange(1 << 30)}, seen)
         if i <= 3:
             rec.sample({"route": route, "text": sx.to_text(prog)})
     if rec.counters.get("skipped-total", 0) > 0.05 * max(1, rec.evaluations):
